@@ -22,6 +22,16 @@ PKGS = {
     "cyc": {"p.go": "package cyc\n\nimport \"github.com/google/wire\"\n\ntype A struct{ N int }\ntype B struct{ N int }\n\nfunc NewA(b B) A { return A{} }\nfunc NewB(a A) B { return B{} }\nfunc NewC() int { return 1 }\n\nvar Unused = wire.NewSet(NewA, NewB)\n",
             "wire.go": HDR % "cyc" + "func InitC() int {\n\tpanic(wire.Build(NewC))\n}\n"},
 }
+# packages whose provider sets share variable names across packages (`wire show` lists included sets)
+SHOW_PKGS = {
+    "shbase": {"p.go": "package shbase\n\nimport \"github.com/google/wire\"\n\ntype Base struct{ N int }\n\nfunc NewBase() Base { return Base{N: 7} }\n\nvar Set = wire.NewSet(NewBase)\n"},
+    "shstore": {"p.go": "package shstore\n\nimport (\n\t\"example.com/w/shbase\"\n\t\"github.com/google/wire\"\n)\n\ntype Store struct{ B shbase.Base }\n\n"
+                        "func NewStore(b shbase.Base) Store { return Store{B: b} }\n\nvar Set = wire.NewSet(shbase.Set, NewStore)\n"},
+    "shcache": {"p.go": "package shcache\n\nimport \"github.com/google/wire\"\n\ntype Cache struct{ N int }\n\nfunc NewCache() Cache { return Cache{N: 3} }\n\nvar Providers = wire.NewSet(NewCache)\n"},
+    "shapp": {"p.go": "package shapp\n\nimport (\n\t\"example.com/w/shcache\"\n\t\"example.com/w/shstore\"\n\t\"github.com/google/wire\"\n)\n\ntype App struct {\n\tS shstore.Store\n\tC shcache.Cache\n}\n\n"
+                      "func NewApp(s shstore.Store, c shcache.Cache) App { return App{S: s, C: c} }\n\nvar Set = wire.NewSet(shstore.Set, shcache.Providers, NewApp)\n\nvar Providers = wire.NewSet(Set)\n",
+              "wire.go": HDR % "shapp" + "func Init() App {\n\tpanic(wire.Build(Set))\n}\n"},
+}
 # source variants of one package for the histories
 VARIANTS = {
     1: {"p.go": "package h\n\ntype A struct{ N int }\ntype B struct{ A A }\n\nfunc NewA() A { return A{N: 1} }\nfunc NewB(a A) B { return B{A: a} }\n",
@@ -342,6 +352,28 @@ def eng_cli(pid, tier, wd, known, replay=None):
                                       "oracle": ["wire check exit %d but wire gen exit %d" % (c_rc, g_rc)], "seed": seed()}, True))
             if snapshot(root) != before:
                 viol.append(({"property": pid, "kind": "failing-input", "broken": "C19/C17 oracle", "input": {}, "oracle": ["check or show modified the tree"], "seed": seed()}, True))
+            # included named sets, with variable names shared across packages
+            shutil.rmtree(root, ignore_errors=True)
+            write_ws(root, SHOW_PKGS)
+            s_rc, sso, sse = wire(root, ["show", "./shapp"])
+            stats["invocations"] += 1
+            blocks, cur = {}, None
+            for line in sso.split("\n"):
+                m = re.match(r'^("[^"]+"\.\w+)$', line)
+                if m:
+                    cur = m.group(1); blocks[cur] = []; continue
+                m = re.match(r'^\t("[^"]+"\.\w+)$', line)
+                if m and cur is not None:
+                    blocks[cur].append(m.group(1))
+                elif line.strip() == "" or not line.startswith("\t"):
+                    cur = None if not line.startswith("\t") else cur
+            want = {'"example.com/w/shapp".Set': ['"example.com/w/shbase".Set', '"example.com/w/shcache".Providers', '"example.com/w/shstore".Set'],
+                    '"example.com/w/shapp".Providers': ['"example.com/w/shapp".Set', '"example.com/w/shbase".Set', '"example.com/w/shcache".Providers', '"example.com/w/shstore".Set']}
+            got = {k: blocks.get(k) for k in want}
+            if s_rc != 0 or got != want:
+                viol.append(({"property": pid, "kind": "failing-input", "broken": "C19 oracle: wire show, included named sets", "input": {"files": SHOW_PKGS},
+                              "impl": {"exit": s_rc, "show": sso[-1500:], "stderr": sse[-400:]},
+                              "oracle": ["wire show lists %s as the named sets included; the sources include %s" % (got, want)], "seed": seed()}, True))
         finally:
             shutil.rmtree(root, ignore_errors=True)
     return {"name": "cli", "evaluations": stats["invocations"] + stats["history_steps"], "distinct_nontrivial": len({json.dumps(d, sort_keys=True) for d in descs}),
